@@ -156,6 +156,21 @@ CHECKS['C10'] = dict(
     ],
 )
 
+CHECKS['C08'] = dict(
+    level='exploration',
+    rule='per worker one generated key (lengths 0,1,12,32,60,61,75,200 by seed); generated windows [s, s+len) with len in {0..9, 4k, 4k+1..3, uniform <= 4096, 65539, 100000} and s in {0, 1..3, '
+         'N-len, near the end, uniform}, cut into consecutive (start,count) calls at generated cut points, calls dealt to 1-16 threads, cache flags {default = interpreted initialiser, JIT = compiled '
+         'initialiser}. Before the calls every dataset page is PROT_NONE except those overlapping a request, which are canary-filled (the dataset ends exactly at a PROT_NONE page). '
+         'Oracle: every requested item == initDatasetItem (light path) and, for all items of small requests and a sample of large ones, == the specification model; canaries outside the requests intact; no fault. '
+         'Thorough adds two complete 2 GiB datasets (compiled vs interpreted, random 16-thread partitions) compared byte for byte and sampled against the model. '
+         'Non-trivial: call set with count<4, count%4!=0, count==0, a multiple of 4 above 4, the last item, or more than one thread',
+    assumptions=COMMON_ASSUME + ['model/ref_superscalar.cpp + ref_argon2.cpp as reading of specs.md ch.6-7 (validated by the published digests)', 'page-granular detection of stray stores outside opened pages, byte-granular inside them'],
+    stages=[
+        dict(name='ranges', harness=H('c08', ['harness/c08_dataset.cpp'], model=True),
+             plan={'quick': 'ranges=3000', 'thorough': 'ranges=200000,full=all'}),
+    ],
+)
+
 C02_AUX = os.path.join(os.path.dirname(os.path.abspath(__file__)), 'build', 'run', 'c02-digests')
 
 
